@@ -350,7 +350,7 @@ mod imp {
         symtpl::NUM_THRESHOLD.with(|k| k.set(caps.len() + 1));
         rep.fancy = format!("{:?}", re).contains("Fancy") || item.pattern.contains("(?=)") || item.pattern.contains("(?!");
         let ctx = Ctx { py, pattern: &item.pattern, re: &re, caps: &caps, names, texts };
-        let classes = symtpl::template_classes();
+        let classes = symtpl::template_classes(crate::parse::is_id_char);
         let prop = "C12";
         let panic_op = format!("tpl_all_{}", ctx.kind());
         let show_sym = |o: &symtpl::SymString| format!("{:?}", o.0.iter().map(|b| crate::symtext::ByteLike::term(*b)).collect::<Vec<_>>());
